@@ -165,7 +165,8 @@ func (c *fctx) relpos(n ast.Node) string {
 	if err != nil {
 		rel = p.Filename
 	}
-	return fmt.Sprintf("%s:%d", rel, p.Line)
+	_ = p.Line // line numbers are left out so that unrelated edits of the file do not change Funcs.v
+	return rel
 }
 
 // ---------- types ----------
